@@ -1866,7 +1866,7 @@ func runBeginOnce(c *Ctx) {
 func init() {
 	Register(&Rule{
 		Name:  "R-RESEND-ONCE",
-		Props: []string{"C17"},
+		Props: []string{"C17", "C06"},
 		Min:   1,
 		Doc: "the chunk that failed verification goes out once: every assignment resendPending = true in the sender is reached only past `<chunk> < F` (true edge), where <chunk> is the value stored into resendChunk beside it and F the value stored into resumePlan.forceSendFrom - " +
 			"a chunk at or above the force-send index is sent by the ordinary schedule anyway (after the verdict), so scheduling it as the re-send as well dispatches it twice; with the default verify tail of 1 that is every failed verification (F43)",
